@@ -69,6 +69,10 @@ class ConfigRun:
             for s in self.names:
                 self.objs[s] = make_faulty(getattr(passlib.hash, s), self.state)
             policy["schemes"] = [self.objs[s] for s in self.names]
+        from simkit.worlds.credstore import USER_SCHEMES
+
+        self.user_schemes = USER_SCHEMES
+        self.ckw = {"user": "probe-user"} if any(s in USER_SCHEMES for s in self.names) else {}
         self.cur = policy  # the configuration in force, as constructor keywords
         r = _call(build_context, policy)
         if r[0] == "exc":
@@ -95,7 +99,7 @@ class ConfigRun:
                             c += 1
                         self.probes.append((s, H.using(rounds=c).hash("probe-pw")))
                 else:
-                    self.probes.append((s, H.hash("probe-pw")))
+                    self.probes.append((s, H.hash("probe-pw", **(self.ckw if s in self.user_schemes else {}))))
         self.ctx.rng.mode = mode
         self.probes.append((None, "$unknown$format$string"))
 
@@ -122,12 +126,12 @@ class ConfigRun:
             row = [_call(cc.identify, h)[:2]]
             for c in cats:
                 row.append(_call(cc.needs_update, h, category=c)[:2])
-            row.append(_call(cc.verify, "probe-pw", h)[:2])
-            row.append(_call(cc.verify, "wrong-probe", h)[:2])
+            row.append(_call(cc.verify, "probe-pw", h, **self.ckw)[:2])
+            row.append(_call(cc.verify, "wrong-probe", h, **self.ckw)[:2])
             dec.append(row)
         r["decisions"] = dec
         mode, self.ctx.rng.mode = self.ctx.rng.mode, "pinned"
-        r["hash"] = [_call(cc.hash, "probe-pw", category=c)[:2] for c in cats]
+        r["hash"] = [_call(cc.hash, "probe-pw", category=c, **self.ckw)[:2] for c in cats]
         self.ctx.rng.mode = mode
         r["handlers"] = [_call(lambda c=c: cc.handler(None, c).name)[:2] for c in cats]
         return r
